@@ -609,9 +609,9 @@ fn process_items(file: &str, items: Vec<Item>, cfg: &Cfg, rw: &mut Rewriter, out
                 }
                 s.attrs.retain(|a| !a.path().is_ident("cfg") && !a.path().is_ident("cfg_attr") && !a.path().is_ident("doc"));
                 filter_type_attrs(&mut s.attrs, &mut out.dropped);
-                s.vis = Visibility::Inherited;
+                s.vis = parse_quote!(pub);
                 for f in s.fields.iter_mut() {
-                    f.vis = Visibility::Inherited;
+                    f.vis = parse_quote!(pub);
                     f.attrs.clear();
                 }
                 out.report.push(serde_json::json!({"key": format!("struct {}", s.ident), "file": file,
@@ -624,7 +624,7 @@ fn process_items(file: &str, items: Vec<Item>, cfg: &Cfg, rw: &mut Rewriter, out
                 }
                 e.attrs.retain(|a| !a.path().is_ident("cfg") && !a.path().is_ident("cfg_attr") && !a.path().is_ident("doc"));
                 filter_type_attrs(&mut e.attrs, &mut out.dropped);
-                e.vis = Visibility::Inherited;
+                e.vis = parse_quote!(pub);
                 for v in e.variants.iter_mut() {
                     v.attrs.clear();
                 }
@@ -642,7 +642,7 @@ fn process_items(file: &str, items: Vec<Item>, cfg: &Cfg, rw: &mut Rewriter, out
                 }
                 let orig = f.to_token_stream();
                 strip_all_attrs(&mut f.attrs, &mut out.dropped);
-                f.vis = Visibility::Inherited;
+                f.vis = parse_quote!(pub);
                 let key = format!("fn {}", f.sig.ident);
                 let line = f.sig.ident.span().start().line;
                 rw.self_ty = String::new();
@@ -693,7 +693,7 @@ fn process_items(file: &str, items: Vec<Item>, cfg: &Cfg, rw: &mut Rewriter, out
                             }
                             let orig = f.to_token_stream();
                             strip_all_attrs(&mut f.attrs, &mut out.dropped);
-                            f.vis = Visibility::Inherited;
+                            f.vis = if trait_name.is_some() && im.trait_.is_some() { Visibility::Inherited } else { parse_quote!(pub) };
                             let key = match &trait_name {
                                 Some(tn) => format!("fn <{} as {}>::{}", st, tn, f.sig.ident),
                                 None => format!("fn {}::{}", st, f.sig.ident),
